@@ -1878,6 +1878,8 @@ def _seq_like(v: Term) -> bool:
         return v[2].startswith(("q_", "_q_")) or v[2] in _SEQ_ATTRS
     if v[0] == "call" and isinstance(v[1], str) and v[1] in ("sorted", "list", "collections.deque"):
         return True
+    if v[0] == "index" and v[2] == T.ZERO and v[1][0] == "call" and T.call_name(v[1]) == "jax.tree_util.tree_flatten":
+        return True  # the list of leaves of a pytree
     return False
 
 
